@@ -136,7 +136,7 @@ class FrozenParameterGate(
         )
 
     def __hash__(self) -> int:
-        return hash((self.gate, tuple(self.frozen_params.items())))
+        return hash((self.gate, frozenset(self.frozen_params.items())))
 
     @property
     def qasm_name(self) -> str:
